@@ -631,7 +631,14 @@ def cases(tier, rng):
             out.append('B ' + (m.hex() or '-'))
         # xref-stream + object-stream layout of the same document, and hostile header numbers
         try:
-            out.append('B ' + render_xs(random.Random(seed), objs, root).hex())
+            xs = render_xs(random.Random(seed), objs, root)
+            out.append('B ' + xs.hex())
+            if len(xs) <= 2600 and m_case(seed, objs, root) and rng.random() < (0.6 if big else 0.25):
+                # the same document in the xref-stream + object-stream layout, bytes only, through the composed model
+                toks = ['Y', xs.hex()]
+                for k_, o_, t_ in dict((e[0], e) for e in ORACLE).values():
+                    toks += [k_, o_, t_]
+                out.append(' '.join(toks))
             for _ in range(6 if not big else 16):
                 key = rng.choice(['ofs', 'ofs', 'id', 'N', 'First', 'idx', 'size', 'startxref'])
                 v = rng.choice(EXTREMES + [5, 21, 500, 10 ** 6, 2 ** 64 - 1])
